@@ -3,5 +3,6 @@ CONSTANTS
   Prop = "ALL"
   DefNaNCompare = FALSE
   DefSwapNs = FALSE
+  DefStaleFactor = FALSE
 INVARIANT Report
 CHECK_DEADLOCK FALSE
